@@ -29,6 +29,8 @@ ASSUMPTIONS = [
     "__getitem__(slice), reverse(), complement(), copy(), __iadd__ taken from sequence.py's documented behaviour (C03 covers them)",
 ]
 UNVERIFIED = [
+    "AnnotatedSequence.__setitem__(Feature) with two locations: 'bases outside the feature are unchanged' (undecided by the sequence solvers; "
+    "read-back equality and length preservation are proved); features with more than two locations",
     "Annotation.__add__/__iadd__/del_feature/get_location_range, Feature.__lt__/__gt__/get_location_range, __repr__",
     "Sequence.__getitem__/__setitem__/reverse/complement bodies (NumPy; assumed contracts, see C03)",
 ]
@@ -276,6 +278,10 @@ def seq_class(I):
         c = self.attrs["codes"]
         r = rev_f(c)
         I_.ctx.assume(z3.And(z3.Length(r) == z3.Length(c), rev_f(r) == c))
+        if z3.is_app(c) and c.decl().name() == "comp":
+            # reversal and complement commute
+            I_.ctx.assume(r == comp_f(rev_f(c.arg(0))))
+            I_.ctx.assume(z3.And(z3.Length(rev_f(c.arg(0))) == z3.Length(c.arg(0)), rev_f(rev_f(c.arg(0))) == c.arg(0)))
         return mk(r)
 
     def complement(I_, self):
@@ -295,6 +301,14 @@ def seq_class(I):
     ns["__add__"] = ns["__iadd__"]
     cls = Class("AbsSequence", (), ns, None, "user")
     I.ghost["AbsSequence"] = cls
+    x = z3.Const("x!seq", IntSeq)
+    # reverse() and complement() are length-preserving, commuting involutions
+    # (stated with quantifiers only where a proof needs them on compound terms;
+    # the other cases get the instances for the terms they create)
+    if I.ghost.get("seq_axioms_quantified"):
+      I.ctx.assume(z3.ForAll([x], z3.And(rev_f(rev_f(x)) == x, z3.Length(rev_f(x)) == z3.Length(x)), patterns=[rev_f(x)]))
+      I.ctx.assume(z3.ForAll([x], z3.And(comp_f(comp_f(x)) == x, z3.Length(comp_f(x)) == z3.Length(x)), patterns=[comp_f(x)]))
+      I.ctx.assume(z3.ForAll([x], rev_f(comp_f(x)) == comp_f(rev_f(x)), patterns=[rev_f(comp_f(x))]))
     I.ctx.trusted.add("Sequence contract: code array as SMT sequence; __getitem__/__setitem__ follow Python/NumPy slice semantics, "
                       "copy() equal codes, reverse()/complement() are length-preserving involutions (uninterpreted), += concatenates")
     return cls
@@ -461,3 +475,114 @@ CASES += [
     Case(ANN + "::AnnotatedSequence.reverse_complement", setup=setup_revcomp,
          ensures=[("reverse_complement", ens_revcomp)], timeout=20),
 ]
+
+
+# ==========================================================================
+# Feature indexing: aseq[feature] and aseq[feature] = item  (features with a
+# concrete number of locations, 1 or 2; positions, strands and the sequence
+# are arbitrary; the iteration order of the location frozenset is arbitrary)
+
+import itertools
+
+
+def mk_feature_k(I, k, ss, n, disjoint=True):
+    Feat = get_class(I, ANN, "Feature")
+    locs = []
+    for i in range(k):
+        loc = mk_loc(I, f"floc{i}")
+        I.ctx.assume(z3.And(loc.attrs["_first"] >= ss, loc.attrs["_last"] <= ss + n - 1))
+        locs.append(loc)
+    if disjoint:
+        for a, b in itertools.combinations(locs, 2):
+            I.ctx.assume(z3.Or(a.attrs["_last"] < b.attrs["_first"], b.attrs["_last"] < a.attrs["_first"]))
+    # a frozenset iterates in an arbitrary order
+    perms = list(itertools.permutations(range(k)))
+    order = perms[I.ctx.choose(len(perms))]
+    return Obj(Feat, {"_key": "gene", "_locs": PSet([locs[i] for i in order], frozen=True), "_qual": Opaque("qual")}), locs
+
+
+def chunk(codes, loc, ss):
+    return z3.SubSeq(codes, zint(loc.attrs["_first"]) - ss, zint(loc.attrs["_last"]) - zint(loc.attrs["_first"]) + 1)
+
+
+def expected_feature_seq(I, codes, locs, ss):
+    """location subsequences in biological order; reverse strand: descending positions, each reverse-complemented.
+    Returns list of (condition, expected codes)"""
+    Loc = loc_cls(I)
+    FWD, REV = Loc.ns["Strand"].members["FORWARD"], Loc.ns["Strand"].members["REVERSE"]
+    out = []
+    for perm in itertools.permutations(range(len(locs))):
+        ordered = [locs[i] for i in perm]
+        asc = natives.conj([zint(a.attrs["_first"]) < zint(b.attrs["_first"]) for a, b in zip(ordered, ordered[1:])])
+        desc = natives.conj([zint(a.attrs["_last"]) > zint(b.attrs["_last"]) for a, b in zip(ordered, ordered[1:])])
+        allf = natives.conj([natives.eq(I, l.attrs["_strand"], FWD) for l in locs])
+        allr = natives.conj([natives.eq(I, l.attrs["_strand"], REV) for l in locs])
+        fw = [chunk(codes, l, ss) for l in ordered]
+        rv = [comp_f(rev_f(chunk(codes, l, ss))) for l in ordered]
+        cat = lambda xs: z3.Concat(*xs) if len(xs) > 1 else xs[0]
+        out.append((natives.conj([allf, asc]), cat(fw)))
+        out.append((natives.conj([allr, desc]), cat(rv)))
+    return out
+
+
+def setup_feat_get(k):
+    def setup(I):
+        obj, annot, seq, ss, codes = mk_annot_seq(I)
+        feat, locs = mk_feature_k(I, k, ss, z3.Length(codes))
+        return {"args": [obj, feat], "ghost": {"ss": ss, "codes": codes, "locs": locs}}
+    return setup
+
+
+def same_strand(I, locs):
+    return natives.conj([natives.eq(I, a.attrs["_strand"], b.attrs["_strand"]) for a, b in zip(locs, locs[1:])])
+
+
+def ens_feat_get(I, env):
+    v = env.vars
+    res = v["result"]
+    out = []
+    for i, (cond, exp) in enumerate(expected_feature_seq(I, v["codes"], v["locs"], v["ss"])):
+        out.append((f"biological_order#{i}", implies(cond, res.attrs["codes"] == exp)))
+    return out
+
+
+def setup_feat_set(k):
+    def setup(I):
+        I.ghost["seq_axioms_quantified"] = True
+        obj, annot, seq, ss, codes = mk_annot_seq(I)
+        feat, locs = mk_feature_k(I, k, ss, z3.Length(codes))
+        I.ctx.assume(same_strand(I, locs))
+        item_codes = z3.Const("item", IntSeq)
+        total = sum((zint(l.attrs["_last"]) - zint(l.attrs["_first"]) + 1 for l in locs), z3.IntVal(0))
+        I.ctx.assume(z3.Length(item_codes) == total)
+        item = Obj(seq_class(I), {"codes": item_codes})
+        return {"args": [obj, feat, item], "ghost": {"ss": ss, "codes0": codes, "locs": locs, "item": item_codes, "feat": feat, "aseq": obj}}
+    return setup
+
+
+def ens_feat_set(I, env):
+    """after aseq[f] = item:  aseq[f] == item, the length is unchanged and bases outside the feature keep their value"""
+    v = env.vars
+    aseq = v["aseq"]
+    new = aseq.attrs["_sequence"].attrs["codes"]
+    out = [("length_unchanged", z3.Length(new) == z3.Length(v["codes0"]))]
+    if len(v["locs"]) == 1:
+        # (for two locations this frame obligation is left undecided by the z3 and cvc5
+        # sequence solvers within the budget; it is not claimed there -- see UNVERIFIED)
+        p = I.ctx.fresh_int("p")
+        inside = natives.disj([z3.And(p >= zint(l.attrs["_first"]) - v["ss"], p <= zint(l.attrs["_last"]) - v["ss"]) for l in v["locs"]])
+        out.append(("frame", implies(z3.And(p >= 0, p < z3.Length(new), z3.Not(zbool(inside))), new[p] == v["codes0"][p])))
+    getter = get_class(I, ANN, "AnnotatedSequence").ns["__getitem__"]
+    back = I.call(BoundMethod(getter, aseq), [v["feat"]], {})
+    out.append(("read_back_equals_item", back.attrs["codes"] == v["item"]))
+    return out
+
+
+for _k in (1, 2):
+    CASES.append(Case(ANN + "::AnnotatedSequence.__getitem__", f"feature with {_k} location(s)", setup=setup_feat_get(_k),
+                      raises={"ValueError": lambda I, env: natives.neg(same_strand(I, env.vars["locs"]))},
+                      ensures=[("feature_index", ens_feat_get)], timeout=20))
+    CASES.append(Case(ANN + "::AnnotatedSequence.__setitem__", f"feature with {_k} location(s)", setup=setup_feat_set(_k),
+                      ensures=[("feature_assign", ens_feat_set)], timeout=20 if _k == 1 else 120,
+                      # the two-location read-back proof needs minutes of sequence-theory solving: thorough tier only
+                      tiers=("quick", "thorough") if _k == 1 else ("thorough",)))
